@@ -33,6 +33,7 @@ MODULES = {
         dict(py='CryptoEngine.create_ctr_io', coq='create_ctr_io_is_twl', if_test=0, args=[('keyslot', INT)], ret=BOOL),
         dict(py='CryptoEngine.create_ctr_cipher', coq='create_ctr_cipher_is_twl', if_test=0, args=[('keyslot', INT)], ret=BOOL),
         dict(py='CBCFileIO.read', coq='cbc_before', expr_of='before', args=[('offset', INT)], ret=INT),
+        dict(py='CryptoEngine.sd_path_to_iv', coq='sd_path_to_iv', args=[('path', SEQ)], ret=INT),
     ]),
     'fileio': dict(file='pyctr/fileio.py', kernels=[
         dict(py='SubsectionIO.seek', coq='SubsectionIO_seek', args=[('seek', INT), ('whence', INT)], ret=INT,
